@@ -267,3 +267,63 @@ impl std::io::Write for ShortWriter {
         Ok(())
     }
 }
+
+
+/// Watches one library call: if the call has not returned after `secs` seconds of wall-clock time AND the
+/// process has used next to no CPU time meanwhile (it is blocked, not busy), the process says so and exits
+/// with status 97 - the supervisor re-runs the case alone before believing it.  A busy call is left to the
+/// CPU-time limit.
+pub struct NoReturnGuard(Option<std::sync::Arc<std::sync::atomic::AtomicBool>>);
+
+fn cpu_ticks() -> u64 {
+    std::fs::read_to_string("/proc/self/stat")
+        .ok()
+        .and_then(|s| {
+            let rest = s.rsplit_once(')')?.1.to_string();
+            let f: Vec<&str> = rest.split_whitespace().collect();
+            Some(f.get(11)?.parse::<u64>().ok()? + f.get(12)?.parse::<u64>().ok()?)
+        })
+        .unwrap_or(0)
+}
+
+impl NoReturnGuard {
+    pub fn arm(secs: Option<u64>) -> Self {
+        let secs = match secs {
+            Some(s) if s > 0 => s,
+            _ => return NoReturnGuard(None),
+        };
+        let done = std::sync::Arc::new(std::sync::atomic::AtomicBool::new(false));
+        let d2 = done.clone();
+        std::thread::spawn(move || {
+            let mut last = cpu_ticks();
+            let mut idle = 0u64;
+            loop {
+                std::thread::sleep(std::time::Duration::from_secs(1));
+                if d2.load(std::sync::atomic::Ordering::SeqCst) {
+                    return;
+                }
+                let now = cpu_ticks();
+                // fewer than 5 clock ticks (50 ms) of CPU in this second: idle
+                if now.saturating_sub(last) < 5 {
+                    idle += 1;
+                } else {
+                    idle = 0;
+                }
+                last = now;
+                if idle >= secs {
+                    eprintln!("ITV-NO-RETURN: the library call has been blocked without using CPU time for {} s", secs);
+                    std::process::exit(97);
+                }
+            }
+        });
+        NoReturnGuard(Some(done))
+    }
+}
+
+impl Drop for NoReturnGuard {
+    fn drop(&mut self) {
+        if let Some(d) = &self.0 {
+            d.store(true, std::sync::atomic::Ordering::SeqCst);
+        }
+    }
+}
